@@ -20,7 +20,7 @@ MANIFEST = dict(
          'values, cancels, switches, ready-callback order shuffled) against the model driver - every GeckoConfig member after each '
          'switch, the wake time of every sleeper, the state of the shared future - plus the facade rule on real GeckoPump / '
          'GeckoBlower / GeckoAsyncFacade objects; direct monitors on the real code with timer jitter on.'
-         ' Since session 3: the facade rule is exercised on facades built by the real constructor, observing the live table (with the opposite table installed beforehand), and over histories of real facades (reconnect with a pump running, external mode switch, ticks). config_change_state_inventory: the facade keeps no remembered mode. Device changes arrive as misaligned 2-byte words and refresh segments.',
+         ' Since session 3: the facade rule is exercised on facades built by the real constructor, observing the live table (with the opposite table installed beforehand), and over histories of real facades (reconnect with a pump running, external mode switch, ticks). config_change_state_inventory: the facade keeps no remembered mode. Device changes arrive as misaligned 2-byte words and refresh segments. Session 5: device_change_reaches_the_facade_whatever_happened_before (the notification walk keeps no memory); real-facade histories in which a client callback watching a pump or blower fails once - everything afterwards must still switch the table.',
     note='Partial: the timing clauses are theorems about the tick model (time = integer milliseconds of the virtual clock); real '
          'timer skew of an event loop is outside, the jittered runs only bound it. Assumed: asyncio.wait(timeout=) semantics, one '
          'event loop (the module-level future is foreign to a second loop), cancellation delivered at the next suspension point. '
@@ -480,6 +480,10 @@ def check_facade(ctx):
 
 
 # ----------------------------------------------------------------------------------------------- histories over REAL facades
+class _ClientFault(Exception):
+    pass
+
+
 def _real_history(ops, snapshot="default.snapshot"):
     """Real GeckoAsyncFacade objects, built by their real constructor on one real structure holding a shipped snapshot's
     block, driven through a history (the process-wide GeckoConfig is shared by all of them, as in a real process):
@@ -487,6 +491,8 @@ def _real_history(ops, snapshot="default.snapshot"):
       ["set", i, on]    device i (pumps then blowers) starts/stops: its state bits change through
                         replace_status_block_segment -> accessor -> sensor -> device -> facade notification chain
       ["ext", b]        somebody else switches the mode (another spa's facade, user code)
+      ["fault", i]      a CLIENT callback watching device i (as an automation integration does) fails once, on the next change it is
+                        told about; the failure is reported to whoever delivered the block, and everything afterwards must still work
       ["tick"]          what the facade update loop does every period: facade._on_config_device_change()
     Returns one record per op: [op, devices_on, table ('active'|'idle'|'mixed:<member>'), must_match]."""
     import importlib
@@ -553,8 +559,22 @@ def _real_history(ops, snapshot="default.snapshot"):
                         lo, hi = max(0, acc.pos - 37), min(1024, acc.pos + 64)
                     else:
                         lo, hi = acc.pos, acc.pos + acc.length
-                    spa.struct.replace_status_block_segment(lo, bytes(nb[lo:hi]))
-                    must = d.is_on != before            # the device's state changed: the facade has been notified
+                    try:
+                        spa.struct.replace_status_block_segment(lo, bytes(nb[lo:hi]))
+                        must = d.is_on != before            # the device's state changed: the facade has been notified
+                    except _ClientFault:
+                        must = False                        # the delivery that a client callback broke is reported to the deliverer, not judged
+            elif op[0] == "fault":
+                ds = devs()
+                if ds:
+                    d = ds[op[1] % len(ds)]
+                    armed = [True]
+
+                    def failing(sender, old, new, armed=armed):
+                        if armed[0]:
+                            armed[0] = False
+                            raise _ClientFault("client callback failed (once)")
+                    d.watch(failing)
             elif op[0] == "ext":
                 cfg.set_config_mode(bool(op[1]))
             elif op[0] == "tick":
@@ -576,11 +596,13 @@ def facade_histories(ctx):
         [["set", 0, True], ["new"], ["tick"], ["set", 0, False], ["new"], ["tick"]],
     ]
     hs += [[["set", i, True, how], ["set", i, False, how]] for how in ("word-before", "word-at", "refresh") for i in range(4)]
+    hs += [[["fault", i], ["set", i, True], ["set", i, False], ["tick"], ["set", i, True], ["set", i, False]] for i in range(3)]
+    hs += [[["set", 0, True], ["fault", 0], ["set", 0, False], ["set", 0, True], ["set", 0, False], ["set", 1, True], ["set", 1, False]]]
     for _ in range(12 if ctx.quick else 150):
         h = []
         for _ in range(rng.randint(3, 14)):
             r = rng.random()
-            h.append(["set", rng.randrange(4), rng.random() < 0.5, rng.choice(["own", "word-before", "word-at", "refresh"])] if r < 0.5 else ["tick"] if r < 0.7 else ["new"] if r < 0.85 else ["ext", rng.random() < 0.5])
+            h.append(["set", rng.randrange(4), rng.random() < 0.5, rng.choice(["own", "word-before", "word-at", "refresh"])] if r < 0.5 else ["tick"] if r < 0.7 else ["new"] if r < 0.82 else ["fault", rng.randrange(4)] if r < 0.88 else ["ext", rng.random() < 0.5])
         hs.append(h)
     return hs
 
